@@ -623,6 +623,11 @@ class DepolarizingNoise(AdditionNoiseBase):
             trans_iter = list(trans_iter)
 
             for p_i, tableau_i in state_rep.mixture:
+                if p_i == 0:
+                    # a component that already has zero weight (e.g. after certain photon loss) stays as it is;
+                    # dropping it could leave an empty, invalid mixture
+                    mixture.append((p_i, tableau_i))
+                    continue
                 for k in range(len(trans_iter)):
                     if p_i * factors[k] > 0:
                         new_tableau_i = tableau_i.copy()
